@@ -488,6 +488,18 @@ void caseBilinear(Ctx &c, Rng &g, uint64_t stratum) {
                           model::rstr(toR<T>(both)) + " expected " +
                           model::rstr(exSame));
         c.count("bilinear:same-type-different-state");
+        // C07 through the library for the same call: the form equals the
+        // identity linear form of the product of the two transformed splines
+        const T viaProduct = LinearForm{}((E1::template make<T>(*sc.env) * a) *
+                                          (E1::template make<T>(*sc2.env) * a));
+        if (!(viaProduct == both))
+          c.violation("C07",
+                      std::string("bilinear-vs-linear-of-product/same-type-different-state/") +
+                          E1::text,
+                      desc + " second state: " + sceneStr(sc2) + " form " +
+                          model::rstr(toR<T>(both)) + " linear form of the product " +
+                          model::rstr(toR<T>(viaProduct)));
+        c.count("linear:same-type-different-state");
       }
     }
     if (exact != 0) {
